@@ -32,7 +32,15 @@ func advMakerPlan(t *rapid.T, chains []string, deviate bool) *world.Plan {
 	if deviate {
 		n := rapid.IntRange(0, 2).Draw(t, "ndev")
 		for i := 0; i < n; i++ {
-			switch rapid.IntRange(0, 13).Draw(t, "dev") {
+			switch rapid.IntRange(0, 15).Draw(t, "dev") {
+			case 14:
+				// the negotiated amount goes to another script, the swap script gets dust
+				cfg.Open.Decoy = "sameamount"
+				cfg.Open.AmountDelta = -int64(amount) + pick(t, "dust", []int64{546, 1000, 1})
+			case 15:
+				// swap script twice: dust first, and the "real" one with a wrong amount
+				cfg.Open.Decoy = "samescript"
+				cfg.Open.AmountDelta = pick(t, "amtdelta2", []int64{-1, 1, -1000})
 			case 0:
 				cfg.Open.AmountDelta = pick(t, "amtdelta", []int64{-1, 1, -1000, 100000})
 			case 1:
@@ -253,5 +261,233 @@ func init() {
 		},
 		Monitors:   world.MonitorsFor("C11"),
 		Nontrivial: func(r *world.Result) bool { return r.Probes["C11:request-judged"] >= 2 },
+	})
+}
+
+func init() {
+	register(&PropDef{
+		ID: "C20",
+		Gen: func(t *rapid.T, tier string) *world.Plan {
+			p := &world.Plan{Seed: rapid.Uint64Range(1, 1<<40).Draw(t, "seed"), Scn: world.DefaultScenario()}
+			scn := &p.Scn
+			scn.Component = "watchers"
+			scn.Kind = [2]string{"real", "adv"}
+			scn.LiquidBackend[0] = pick(t, "backend", []string{"elementsd", "lwk"})
+			scn.RpcParkRate = pick(t, "park", []int{0, 200, 1000})
+			scn.BlockEverySec = pick(t, "blockevery", []int{0, 5, 20})
+			scn.DurationSec = 400
+			n := rapid.IntRange(1, 4).Draw(t, "nwatch")
+			for i := 0; i < n; i++ {
+				ws := world.WatchSpec{Chain: pick(t, "chain", []string{"btc", "lbtc"}), Kind: pick(t, "kind", []string{"conf", "conf", "csv"}),
+					BroadcastMs: pick(t, "bc", []int{-1, 1000, 1000, 5000, 60000}), RegisterMs: pick(t, "reg", []int{2000, 2000, 30000, 120000}),
+					StartOffset: pick(t, "start", []int{0, 0, -1, -3, -10, -500, 2}), WrongVout: rapid.IntRange(0, 5).Draw(t, "wv") == 0}
+				if ws.Chain == "btc" {
+					ws.Window = pick(t, "win", []uint32{504, 504, 6, 3})
+					ws.CSV = pick(t, "csv", []uint32{1008, 10, 3})
+				} else {
+					ws.Window = pick(t, "lwin", []uint32{60, 60, 4, 2})
+					ws.CSV = pick(t, "lcsv", []uint32{60, 10080, 5})
+				}
+				p.Watch = append(p.Watch, ws)
+			}
+			ne := rapid.IntRange(0, 5).Draw(t, "nev")
+			for i := 0; i < ne; i++ {
+				p.Chain = append(p.Chain, world.ChainEv{AtMs: rapid.IntRange(500, 300000).Draw(t, "evat"), Chain: pick(t, "evchain", []string{"btc", "lbtc"}),
+					Kind: pick(t, "evkind", []string{"mine", "mine", "mine", "reorg", "reorg-delay"}), N: pick(t, "evn", []int{1, 1, 2, 3, 5, 8, 60, 520, 1010})})
+			}
+			for i := range p.Chain {
+				if p.Chain[i].Kind != "mine" {
+					if p.Chain[i].Chain == "lbtc" {
+						p.Chain[i].N = 1
+					} else if p.Chain[i].N > 2 {
+						p.Chain[i].N = 2
+					}
+				}
+			}
+			nf := rapid.IntRange(0, 2).Draw(t, "nf")
+			for i := 0; i < nf; i++ {
+				p.Faults = append(p.Faults, world.Fault{Node: 0, Site: pick(t, "fsite", []string{"btc.rpc.height", "btc.rpc.gettxout", "btc.rpc.blockhash", "btc.rpc.getrawtx", "lbtc.rpc.height", "lbtc.rpc.gettxout", "lbtc.rpc.getrawtx", "electrum.history", "electrum.getrawtx"}),
+					Occ: rapid.IntRange(1, 30).Draw(t, "focc"), Kind: pick(t, "fkind", []string{"err", "stale"}), N: pick(t, "fn", []int{1, 3, 10})})
+			}
+			if rapid.Bool().Draw(t, "sched") {
+				p.SchedSeed = rapid.Uint64Range(1, 1<<32).Draw(t, "schedseed")
+				p.SchedRate = pick(t, "rate", []int{50, 300})
+			}
+			return p
+		},
+		Monitors:   world.MonitorsFor("C20"),
+		Nontrivial: func(r *world.Result) bool { return probe(r, "C20:report") },
+	})
+	pk := func(i int) string { return world.NodePubkey(i) }
+	register(&PropDef{
+		ID: "C25",
+		Gen: func(t *rapid.T, tier string) *world.Plan {
+			p := &world.Plan{Seed: rapid.Uint64Range(1, 1<<40).Draw(t, "seed"), Scn: world.DefaultScenario()}
+			p.Scn.Component = "policy"
+			p.Scn.Kind = [2]string{"real", "adv"}
+			p.Scn.DurationSec = 30
+			p.Scn.BlockEverySec = 0
+			// pre-existing file
+			eq := pick(t, "eq", []string{"=", "=", " = ", "= "})
+			var lines []string
+			nl := rapid.IntRange(0, 6).Draw(t, "nlines")
+			for i := 0; i < nl; i++ {
+				switch rapid.IntRange(0, 8).Draw(t, "line") {
+				case 0, 1:
+					lines = append(lines, "allowlisted_peers"+eq+pk(rapid.IntRange(1, 5).Draw(t, "pk")))
+				case 2:
+					lines = append(lines, "suspicious_peers"+eq+pk(rapid.IntRange(1, 5).Draw(t, "pk")))
+				case 3:
+					lines = append(lines, "accept_all_peers"+eq+pick(t, "bool", []string{"true", "false", "1", "0"}))
+				case 4:
+					lines = append(lines, "allow_new_swaps"+eq+pick(t, "bool", []string{"true", "false", "1", "0"}))
+				case 5:
+					lines = append(lines, "min_swap_amount_msat"+eq+pick(t, "min", []string{"100000000", "1", "5000000000"}))
+				case 6:
+					lines = append(lines, "# a comment")
+				case 7:
+					lines = append(lines, "")
+				case 8:
+					lines = append(lines, "unknown_option"+eq+"whatever")
+				}
+			}
+			content := ""
+			for _, l := range lines {
+				content += l + "\n"
+			}
+			style := "canonical"
+			if eq != "=" {
+				style = "spaced"
+			}
+			if len(content) > 0 && rapid.IntRange(0, 2).Draw(t, "nonl") == 0 {
+				content = content[:len(content)-1]
+				if style == "canonical" {
+					style = "no-final-newline"
+				} else {
+					style += "+no-final-newline"
+				}
+			}
+			p.Comp = append(p.Comp, world.CompOp{Kind: "file", S: content, Arg: style})
+			no := rapid.IntRange(1, 8).Draw(t, "nops")
+			for i := 0; i < no; i++ {
+				op := world.CompOp{Kind: pick(t, "op", []string{"policy-allow", "policy-allow", "policy-unallow", "policy-suspect", "policy-unsuspect", "policy-disable", "policy-enable", "policy-reload", "restart"}), Peer: rapid.IntRange(1, 5).Draw(t, "peer")}
+				if rapid.IntRange(0, 7).Draw(t, "badkey") == 0 {
+					op.S = pick(t, "bad", []string{"", "02abc", "zz" + pk(1)[2:], pk(1) + "00", "02" + pk(1)[2:66][:62] + "GG"})
+					if op.S == "" {
+						op.S = "x"
+					}
+				}
+				p.Comp = append(p.Comp, op)
+			}
+			return p
+		},
+		Monitors:   world.MonitorsFor("C25"),
+		Nontrivial: func(r *world.Result) bool { return probe(r, "C25:script-completed") },
+	})
+}
+
+func init() {
+	register(&PropDef{
+		ID: "C29",
+		Gen: func(t *rapid.T, tier string) *world.Plan {
+			p := genPlan(t, genOpts{sched: true, maxNet: 2, silence: true, maxLN: 1, duration: []int{400, 900}})
+			// restart(s) with a changed stored version at assorted moments of the swap
+			n := rapid.IntRange(1, 3).Draw(t, "nver")
+			for i := 0; i < n; i++ {
+				p.Ops = append(p.Ops, world.Op{AtMs: pick(t, "verat", []int{500, 1500, 2010, 2100, 2400, 10000, 40000, 100000, 300000}), Node: rapid.IntRange(0, 1).Draw(t, "vernode"), Kind: "crash-setversion",
+					Arg: pick(t, "ver", []string{"v0.1", "v0.2", "v9.9", "", world.CurrentDBVersion()}), N: int64(pick(t, "verrestart", []int{500, 5000, 60000}))})
+			}
+			return p
+		},
+		Monitors:   world.MonitorsFor("C29"),
+		Nontrivial: func(r *world.Result) bool { return probe(r, "C29:startup:stored-other") },
+	})
+	register(&PropDef{
+		ID: "C27",
+		Gen: func(t *rapid.T, tier string) *world.Plan {
+			p := genPlan(t, genOpts{sched: true, premiums: true, maxCrashes: 1, duration: []int{300, 600}, restartMs: []int{500, 5000}})
+			p.Scn.PeerSync = true
+			n := rapid.IntRange(0, 5).Draw(t, "nprem")
+			for i := 0; i < n; i++ {
+				p.Ops = append(p.Ops, world.Op{AtMs: rapid.IntRange(200, 200000).Draw(t, "premat"), Node: rapid.IntRange(0, 1).Draw(t, "premnode"),
+					Kind: pick(t, "premkind", []string{"premium-set", "premium-set", "premium-setdefault", "premium-delete"}), Chain: pick(t, "premchain", []string{"btc", "lbtc"}),
+					Colon: rapid.Bool().Draw(t, "premout"), Peer: rapid.IntRange(0, 2).Draw(t, "prempeer"), N: pick(t, "premval", []int64{0, 1, 999, 1000, 2000, 10000, 1000000, -1, -1000, -1000000})})
+			}
+			// more swaps later so that changed rates are exercised
+			if rapid.Bool().Draw(t, "second") {
+				p.Ops = append(p.Ops, world.Op{AtMs: pick(t, "at2", []int{150000, 250000}), Node: rapid.IntRange(0, 1).Draw(t, "node2"), Kind: pick(t, "type2", []string{"swapout", "swapin"}), Chain: pick(t, "chain2", []string{"btc", "lbtc"}), Amount: pick(t, "amount2", []uint64{100_000, 333_333, 1_000_000}), Limit: 1000000})
+			}
+			return p
+		},
+		Monitors:   world.MonitorsFor("C27"),
+		Nontrivial: func(r *world.Result) bool { return probe(r, "C27:poll-checked") && probe(r, "C27:op:") },
+	})
+	register(&PropDef{
+		ID: "C26",
+		Gen: func(t *rapid.T, tier string) *world.Plan {
+			// real maker (node 0), hostile taker that lets the CSV run out
+			chain := pick(t, "chain", []string{"btc", "lbtc"})
+			p := genPlan(t, genOpts{chains: []string{chain}, types: []string{"swapin"}, sched: true, layouts: true, duration: []int{900}})
+			p.Scn.Kind = [2]string{"real", "adv"}
+			p.Scn.PeerSync = true
+			p.Scn.Channels = append(p.Scn.Channels, world.ChannelCfg{Block: 200, Tx: 2, Out: 0, A: 0, B: 2, BalA: 2_000_000_000, BalB: 2_000_000_000})
+			p.Ops[0].Node = 0
+			p.Ops[0].Limit = 100000
+			cfg := &world.AdvCfg{Role: "taker", Chain: chain, Amount: p.Ops[0].Amount, Coop: pick(t, "coop", []string{"", "", "bad"}), CancelAfter: pick(t, "cancel", []string{"", "", "opening"})}
+			if rapid.Bool().Draw(t, "advstarts") {
+				// swap-out requested by the hostile taker instead
+				p.Ops = nil
+				cfg.Initiate = true
+				cfg.Limit = 1000000
+				cfg.PayFee = true
+			}
+			burst := 1100
+			if chain == "lbtc" {
+				burst = 10200
+			}
+			p.Chain = append(p.Chain, world.ChainEv{AtMs: pick(t, "burstat", []int{60000, 120000, 300000}), Chain: chain, Kind: "mine", N: burst})
+			late := 400000
+			nr := rapid.IntRange(1, 3).Draw(t, "nreq")
+			for i := 0; i < nr; i++ {
+				cfg.Requests = append(cfg.Requests, world.ReqKnob{AtMs: late + i*20000, Type: pick(t, "rtype", []string{"in", "out"}), Chain: pick(t, "rchain", []string{"btc", "lbtc"}), Amount: 200_000, Version: 7, Limit: 1000000})
+			}
+			np := rapid.IntRange(1, 3).Draw(t, "npoll")
+			for i := 0; i < np; i++ {
+				cfg.Polls = append(cfg.Polls, world.PollKnob{AtMs: late + 5000 + i*15000, Request: rapid.Bool().Draw(t, "preq"), Version: 7, Rate: int64(777000 + i)})
+			}
+			// polls before the refund too, so that a stored capability exists
+			cfg.Polls = append(cfg.Polls, world.PollKnob{AtMs: 1000, Request: true, Version: 7, Rate: 111})
+			p.Ops = append(p.Ops, world.Op{AtMs: late + 70000, Node: 0, Kind: pick(t, "later", []string{"swapout", "swapin"}), Chain: pick(t, "lchain", []string{"btc", "lbtc"}), Amount: 150_000, Limit: 1000000})
+			p.AdvCfg = cfg
+			p.Heal = world.HealCfg{}
+			return p
+		},
+		Monitors:   world.MonitorsFor("C26"),
+		Nontrivial: func(r *world.Result) bool { return probe(r, "C26:quarantine-checked") },
+	})
+}
+
+func init() {
+	// C10 (replaces the first definition): several initiations from both sides on one
+	// channel, both spellings, peers that go quiet so swaps stay active, restarts in between.
+	register(&PropDef{
+		ID: "C10",
+		Gen: func(t *rapid.T, tier string) *world.Plan {
+			p := genPlan(t, genOpts{sched: true, maxNet: 1, duration: []int{300}, silence: true, restartMs: []int{500, 3000}})
+			p.Ops = nil
+			n := rapid.IntRange(2, 5).Draw(t, "nops")
+			for i := 0; i < n; i++ {
+				p.Ops = append(p.Ops, world.Op{AtMs: pick(t, "at", []int{2000, 2000, 2001, 2050, 5000, 20000, 45000, 90000, 150000}), Node: rapid.IntRange(0, 1).Draw(t, "node"),
+					Kind: pick(t, "type", []string{"swapout", "swapin"}), Chain: pick(t, "chain", []string{"btc", "lbtc"}), Amount: pick(t, "amount", []uint64{100_000, 250_000}), Limit: 100000,
+					Colon: rapid.Bool().Draw(t, "colon")})
+			}
+			nc := rapid.IntRange(0, 2).Draw(t, "ncrash")
+			for i := 0; i < nc; i++ {
+				p.Ops = append(p.Ops, world.Op{AtMs: pick(t, "crashat", []int{2500, 4000, 10000, 30000, 60000}), Node: rapid.IntRange(0, 1).Draw(t, "cnode"), Kind: "crash", N: int64(pick(t, "crestart", []int{500, 3000}))})
+			}
+			return p
+		},
+		Monitors:   world.MonitorsFor("C10"),
+		Nontrivial: func(r *world.Result) bool { return probe(r, "C10:contention") || probe(r, "C10:two-active") },
 	})
 }
